@@ -1559,6 +1559,34 @@ fn gen_direct_path(rng: &mut Rng) -> ScionPath {
     }
 }
 
+
+/// `Segments` / `SegmentsPage` (grouping by segment type; not modelled): round trip and arbitrary type keys
+fn check_segments_page(rng: &mut Rng, pool: &[SignedPathSegment], rep: &mut Report) {
+    use sciparse::segment::{Segments, SegmentsPage};
+    let pick = |rng: &mut Rng| -> Vec<SignedPathSegment> { (0..rng.below(3)).map(|_| rng.pick(pool).clone()).collect() };
+    let page = SegmentsPage {
+        segments: Segments { up_segments: pick(rng), down_segments: pick(rng), core_segments: pick(rng) },
+        next_page_token: String::new(),
+    };
+    let mut rpc = page.clone().into_rpc();
+    match catch(|| SegmentsPage::try_from_rpc(rpc.clone())) {
+        Ok(Ok(back)) if back == page => rep.hit("segments page roundtrip ok"),
+        Ok(_) => rep.spec_fail("C18:segments-page-roundtrip", "SegmentsPage does not survive into_rpc → try_from_rpc", json!({})),
+        Err(_) => rep.spec_fail("C18:panic:segment-rpc", "SegmentsPage::try_from_rpc panicked", json!({})),
+    }
+    // unknown / unspecified segment types are skipped, never an error or a panic
+    let extra = pb::control_plane::v1::segments_response::Segments { segments: pool.iter().take(1).map(|s| s.clone().into_rpc()).collect() };
+    for k in [0i32, -1, 4, 77, i32::MAX, i32::MIN] {
+        rpc.segments.insert(k, extra.clone());
+    }
+    match catch(|| SegmentsPage::try_from_rpc(rpc)) {
+        Ok(Ok(back)) if back == page => rep.hit("segments page: unknown types skipped"),
+        Ok(_) => rep.spec_fail("C18:segments-page-roundtrip", "unknown segment types are not skipped", json!({})),
+        Err(_) => rep.spec_fail("C18:panic:segment-rpc", "SegmentsPage::try_from_rpc panicked on unknown segment types", json!({})),
+    }
+    rep.case(&format!("page|{}|{}|{}", page.segments.up_segments.len(), page.segments.down_segments.len(), page.segments.core_segments.len()), true);
+}
+
 // ------------------------------------------------------------------------------------------------
 // deterministic probes of the listed findings (so that they reproduce on every run)
 
@@ -1704,6 +1732,7 @@ fn main() {
     let n_exh = args.scale(2, 12);
     let n_segs = args.scale(14, 200);
     let mut honest_rpcs: Vec<RpcSeg> = vec![];
+    let mut honest_segs: Vec<SignedPathSegment> = vec![];
     for k in 0..n_segs {
         let n = if k < n_exh { [2, 3, 1, 4, 5, 2, 3, 4, 5, 3, 2, 5][k % 12] } else { 1 + k % 5 };
         let h = gen_honest(&mut rng, n, 0);
@@ -1715,6 +1744,7 @@ fn main() {
         };
         seg_stream_one(&h, &f, &mut rng, &mut lean, &mut rep, &mut tally, &o);
         honest_rpcs.push(h.seg.clone().into_rpc());
+        honest_segs.push(h.seg.clone());
         if rep.samples.len() < 3 {
             rep.sample(json!({"honest_segment": seg_brief(&h.seg), "exhaustive_flips": o.exhaustive_flips}));
         }
@@ -1722,6 +1752,10 @@ fn main() {
     rep.notes.push(format!("seg stream done at {:.1}s: {} validations, {} compared with the model", t0.elapsed().as_secs_f32(), tally.validations, tally.model_compared));
     rep.hit_n("entry validations on the implementation", tally.validations);
     rep.hit_n("entry validations compared with the model", tally.model_compared);
+
+    for _ in 0..args.scale(40, 1000) {
+        check_segments_page(&mut rng, &honest_segs, &mut rep);
+    }
 
     // --- arbitrary RPC segments
     let n_rpc = args.scale(1500, 40000);
